@@ -33,9 +33,9 @@ def nofp(s):
 class LtInterp(fd.Interp):
     """operator< over two abstract solutions A (this) and B (the parameter)"""
 
-    def __init__(self, fn, A, B, has_opt, bdid):
+    def __init__(self, fn, A, B, has_opt, bdid, maximize=False):
         super().__init__(fn)
-        self.A, self.B, self.has_opt, self.bdid = A, B, has_opt, bdid
+        self.A, self.B, self.has_opt, self.bdid, self.maximize = A, B, has_opt, bdid, maximize
 
     def side(self, n):
         """which solution a member expression reads"""
@@ -70,7 +70,16 @@ class LtInterp(fd.Interp):
             a = [self.ev(x, env) for x in args(self.fn, n)]
             if not all(isinstance(x, tuple) and x[0] == 'cost' for x in a):
                 raise AnalysisBroken('R04a: isCostBetterThan on non-cost values')
-            return a[0][1] < a[1][1]
+            return (a[0][1] > a[1][1]) if self.maximize else (a[0][1] < a[1][1])
+        if c in ('std::make_tuple', 'std::tie', 'std::forward_as_tuple'):
+            return tuple(self.ev(x, env) for x in args(self.fn, n))
+        if c in ('std::operator<', 'std::operator>', 'std::operator<=', 'std::operator>=') and len(n['ch']) == 2:
+            x, y = self.ev(n['ch'][0], env), self.ev(n['ch'][1], env)
+            if isinstance(x, tuple) and isinstance(y, tuple) and len(x) == len(y):
+                # std::tuple comparison is lexicographic over operator< of the elements; raw numeric values only
+                if any(isinstance(e, tuple) for e in x + y):
+                    raise AnalysisBroken('R04a: tuple comparison over opaque values')
+                return {'<': x < y, '>': x > y, '<=': x <= y, '>=': x >= y}[c[len('std::operator'):]]
         if c == 'ompl::base::Cost::value' and n['ch']:
             v = self.ev(n['ch'][0], env)
             if isinstance(v, tuple) and v[0] == 'cost':
@@ -78,7 +87,7 @@ class LtInterp(fd.Interp):
         raise AnalysisBroken('R04a: operator< calls ' + c)
 
 
-def spec_less(a, b, has_opt):
+def spec_less(a, b, has_opt, maximize=False):
     if not a['approximate_'] and b['approximate_']:
         return True
     if a['approximate_'] and not b['approximate_']:
@@ -89,7 +98,9 @@ def spec_less(a, b, has_opt):
         return True
     if not a['optimized_'] and b['optimized_']:
         return False
-    return a['cost_'] < b['cost_'] if has_opt else a['length_'] < b['length_']
+    if has_opt:
+        return (a['cost_'] > b['cost_']) if maximize else (a['cost_'] < b['cost_'])
+    return a['length_'] < b['length_']
 
 
 def r04a(rep, F):
@@ -103,16 +114,18 @@ def r04a(rep, F):
     U = [dict(approximate_=a, optimized_=o, difference_=d, cost_=c, length_=l)
          for a in (False, True) for o in (False, True) for d in (0, 1, 2) for c in (0, 1, 2) for l in (0, 1, 2)]
     n = len(U)
-    for has_opt in (True, False):
+    for has_opt, maximize in ((True, False), (True, True), (False, False)):
         T = [[False] * n for _ in range(n)]
         bad = None
         for i, a in enumerate(U):
             for j, b in enumerate(U):
-                got, _ = LtInterp(fn, a, b, has_opt, bdid).run()
+                got, _ = LtInterp(fn, a, b, has_opt, bdid, maximize).run()
                 T[i][j] = bool(got)
-                if bool(got) != spec_less(a, b, has_opt) and bad is None:
-                    bad = 'operator< gives %s for A=%s B=%s, the documented ranking gives %s' % (got, a, b, spec_less(a, b, has_opt))
-        role = 'objective-present' if has_opt else 'objective-absent'
+                if bool(got) != spec_less(a, b, has_opt, maximize) and bad is None:
+                    bad = 'operator< gives %s for A=%s B=%s%s, the documented ranking gives %s' % (
+                        got, a, b, ' under an objective whose isCostBetterThan prefers larger values (e.g. max-min clearance)'
+                        if maximize else '', spec_less(a, b, has_opt, maximize))
+        role = ('objective-present' + ('-maximizing' if maximize else '')) if has_opt else 'objective-absent'
         rep.add('R04a', fn.name, 'equals-ranking:' + role, bad is None, fn.loc,
                 bad or 'equal to the documented ranking on all %d pairs' % (n * n),
                 sample={'pairs': n * n, 'example': {'A': U[5], 'B': U[60], 'A<B': T[5][60]}})
@@ -357,6 +370,16 @@ FROZEN_SITES = {
 }
 
 
+# resets that forget the previous query unconditionally today (clear() and the query prologue); they must stay so
+UNCOND_RESETS = {
+    (G_ + 'RRTstar::clear', 1), (G_ + 'RRTXstatic::clear', 1), (G_ + 'PRM::clear', 1), (G_ + 'PRM::constructRoadmap', 1),
+    (G_ + 'LazyPRM::clear', 1), (G_ + 'LazyPRM::solve', 1), (G_ + 'SPARS::clear', 1), (G_ + 'SPARS::constructRoadmap', 1),
+    (G_ + 'SPARStwo::clear', 1), (G_ + 'SPARStwo::constructRoadmap', 1), (G_ + 'EITstar::clear', 1), (G_ + 'CForest::clear', 1),
+    (G_ + 'CForest::setup', 1), (G_ + 'CForest::solve', 1), (G_ + 'AnytimePathShortening::solve', 1),
+    (G_ + 'AnytimePathShortening::clear', 1),
+}
+
+
 def atoms(fn, nid, pol, out, disj):
     """flatten a condition into (node, polarity, inside_disjunction)"""
     n = fn.strip(nid)
@@ -378,6 +401,7 @@ def r04c(rep, F):
                      'the stored value equal to the first (aliases through the assignment made in between are followed); '
                      'first-solution and objective-satisfied idioms are frozen exceptions with reasons')
     n_imp = 0
+    seen_uncond = set()
     for f in F.functions:
         if f.record not in INCUMBENT:
             continue
@@ -397,9 +421,15 @@ def r04c(rep, F):
             in_loop = any(a['k'] in ('ForStmt', 'WhileStmt', 'DoStmt', 'CXXForRangeStmt') for a in f.ancestors(n['id']))
             if RESET.search(rfp):
                 ok = not in_loop or f.d.get('kind') == 'ctor'
-                rep.add('R04c', f.name, role + ':reset', ok, f.where(n),
-                        'reset to "no solution" outside the search loop' if ok else
-                        'the incumbent is reset to "no solution" inside a loop: the best cost can get worse', nontrivial=False)
+                det = 'reset to "no solution" outside the search loop' if ok else \
+                    'the incumbent is reset to "no solution" inside a loop: the best cost can get worse'
+                if ok and (f.name, ordn) in UNCOND_RESETS:
+                    seen_uncond.add((f.name, ordn))
+                    if any(a['k'] in ('IfStmt', 'ConditionalOperator') for a in f.ancestors(n['id'])):
+                        ok = False
+                        det = 'this reset used to be unconditional and is now guarded: the incumbent cost of a previous ' \
+                              'query can survive clear()/clearQuery() and be stored with a more expensive path'
+                rep.add('R04c', f.name, role + ':reset', ok, f.where(n), det, nontrivial=(f.name, ordn) in UNCOND_RESETS)
                 continue
             n_imp += 1
             # aliases: assignments in the same then-branch before the store: X = Y  => RHS mentions X -> Y
@@ -463,6 +493,75 @@ def r04c(rep, F):
                     continue
             rep.add('R04c', f.name, role, verdict, f.where(n), detail)
     rep.require_count('R04c', 'incumbent improvement sites', n_imp, 10)
+    for (fname, o) in sorted(UNCOND_RESETS - seen_uncond):
+        fs = F.by_name.get(fname)
+        if not fs:
+            raise AnalysisBroken('R04c: %s vanished' % fname)
+        rep.add('R04c', fname, 'incumbent-store#%d:reset' % o, False, fs[0].loc,
+                'the unconditional reset of the incumbent in this function is gone: the cost of a previous query survives')
+    r04e(rep, F)
+
+
+def loops_around(f, nid):
+    return tuple(a['id'] for a in f.ancestors(nid) if a['k'] in ('ForStmt', 'WhileStmt', 'DoStmt', 'CXXForRangeStmt'))
+
+
+def r04e(rep, F):
+    rep.rule('R04e', 'argmin pairs: where a loop keeps a running best cost ACC (if isCostBetterThan(x, ACC) { ACC = x; ITEM = '
+                     '...; }) the accumulator and every item selected with it live across the same loops: an accumulator '
+                     'declared inside a loop that the selected item outlives is re-initialised per iteration, so the '
+                     'reported item is no longer the one whose cost is reported')
+    n = 0
+    for f in F.functions:
+        if not f.file.endswith('.cpp') or '/planners/' not in f.file:
+            continue
+        decl_at = {}
+        for x in f.walk():
+            if x['k'] == 'DeclStmt':
+                for d in x.get('decls', []):
+                    decl_at['%s#%d' % (d['name'], d['did'])] = x['id']
+        for i in [x for x in f.walk() if x['k'] == 'IfStmt']:
+            at = []
+            atoms(f, i['cond'], True, at, False)
+            for (an, pol, disj) in at:
+                if an.get('callee') not in BETTER or not pol:
+                    continue
+                a = args(f, an)
+                acc = f.strip(a[1])
+                if acc is None or acc['k'] != 'DeclRefExpr' or acc.get('dk') != 'Local':
+                    continue
+                acck = '%s#%d' % (acc['name'], acc['did'])
+                xfp = f.fp(a[0])
+                stores = []
+                for y in f.walk(i['then']):
+                    t = r = None
+                    if y['k'] == 'BinaryOperator' and y.get('op') == '=':
+                        t, r = y['ch']
+                    elif y['k'] == 'CXXOperatorCallExpr' and y.get('oop') == '=' and len(y['ch']) == 2:
+                        t, r = y['ch']
+                    if t is not None:
+                        stores.append((f.strip(t), r, y))
+                if not any(key(f, y[2]['ch'][0]) == acck and f.fp(y[1]) == xfp for y in stores):
+                    continue
+                if acck not in decl_at or not loops_around(f, i['id']):
+                    continue
+                n += 1
+                acc_loops = set(loops_around(f, decl_at[acck]))
+                bad = None
+                for (t, r, y) in stores:
+                    if t is None or key(f, y['ch'][0]) == acck:
+                        continue
+                    tk = key(f, y['ch'][0])
+                    if t['k'] == 'DeclRefExpr' and t.get('dk') == 'Local' and tk in decl_at:
+                        item_loops = set(loops_around(f, decl_at[tk]))
+                    else:
+                        item_loops = set()  # parameters, members: live across every loop of the function
+                    if acc_loops - item_loops:
+                        bad = 'the running best %s is declared inside a loop that the selected %s outlives' % (
+                            acc['name'], nofp(f.fp(y['ch'][0])))
+                rep.add('R04e', f.name, 'argmin#%s' % acc['name'], bad is None, f.where(i),
+                        bad or 'accumulator %s and the items selected with it share their loop scope' % acc['name'])
+    rep.require_count('R04e', 'argmin pairs in planner loops', n, 2)
 
 
 # ---------------------------------------------------------------------------------------------------------------
